@@ -78,6 +78,12 @@ func runFnCase(c *Ctx, m string, name string, args []*variants.Variant) {
 	}
 	var t0, t1 time.Time
 	var res *variants.Variant
+	// the arguments are handed over as the front of a larger buffer (as `buf[:n]` of a reused list would be)
+	sentinels := []*variants.Variant{vStr("spare-0"), vStr("spare-1"), vStr("spare-2"), vStr("spare-3")}
+	full := make([]*variants.Variant, len(args)+len(sentinels))
+	copy(full, args)
+	copy(full[len(args):], sentinels)
+	buf := full[:len(args)]
 	impl := safeCall(func() string {
 		coll := functions.NewDefaultFunctionCollection()
 		f := coll.FindByName(name)
@@ -85,11 +91,24 @@ func runFnCase(c *Ctx, m string, name string, args []*variants.Variant) {
 			return "err FUNC_NOT_FOUND"
 		}
 		t0 = time.Now()
-		r, err := f.Calculate(args, mgrOf(m))
+		r, err := f.Calculate(buf, mgrOf(m))
 		t1 = time.Now()
 		res = r
 		return outcome(r, err)
 	})
+	// the argument list belongs to the caller: neither its elements nor the spare capacity behind them may be written
+	for i := range full {
+		want := (*variants.Variant)(nil)
+		if i < len(args) {
+			want = args[i]
+		} else {
+			want = sentinels[i-len(args)]
+		}
+		if full[i] != want {
+			c.fail(Failure{Kind: "oracle", Op: op, Impl: impl, Note: fmt.Sprintf("the call wrote slot %d of the caller's argument buffer (length %d, capacity %d): a later call on that buffer silently computes with substituted values", i, len(args), len(full))})
+			break
+		}
+	}
 	c.record(op, len(args) > 0)
 	c.count("fn:" + canon)
 	if c.Prop == "C08" && canon != "" && canon != "Ticks" && canon != "Now" && canon != "Rnd" && canon != "Random" && c.Rng.Intn(3) == 0 {
@@ -516,6 +535,7 @@ func propC08(c *Ctx) {
 		}
 		runFnCase(c, "u", "Date", as)
 	}
+	dateAfterZoneChange(c, "")
 	draws := 200000000
 	if c.Thorough {
 		draws = 2000000000
@@ -631,7 +651,52 @@ func rndRange(c *Ctx, name string, n int) {
 	}
 }
 
+// Date builds the instant in the process's local zone AS IT IS AT THE CALL: a program may assign time.Local after start-up.
+// The cases run with time.Local set to two fixed zones in turn and are judged by time.Date(..., time.Local) directly.
+func dateAfterZoneChange(c *Ctx, only string) {
+	old := time.Local
+	defer func() { time.Local = old }()
+	n := 0
+	for _, z := range []*time.Location{time.FixedZone("VERIF+0530", 19800), time.FixedZone("VERIF-0900", -32400), time.UTC} {
+		time.Local = z
+		for _, dArgs := range [][]int{{2024, 2}, {2024, 2, 29}, {1999, 12, 31, 23}, {1999, 12, 31, 23, 59}, {1999, 12, 31, 23, 59, 60}, {1, 1, 1}, {2024, 0, 0}, {1970, 1, 1, 0, 0, 0, 0}} {
+			for _, m := range []string{"u", "s"} {
+				var as []*variants.Variant
+				strs := []string{}
+				for _, v := range dArgs {
+					as = append(as, vInt(v))
+					strs = append(strs, strconv.Itoa(v))
+				}
+				op := fmt.Sprintf("fnzone %s %s %s", m, z.String(), strings.Join(strs, ","))
+				if only != "" && only != op {
+					continue
+				}
+				f := append(append([]int(nil), dArgs...), []int{1, 1, 0, 0, 0, 0}[len(dArgs)-1:]...)
+				want := time.Date(f[0], time.Month(f[1]), f[2], f[3], f[4], f[5], f[6]*1000000, z)
+				var res *variants.Variant
+				impl := safeCall(func() string {
+					r, err := functions.NewDefaultFunctionCollection().FindByName("date").Calculate(as, mgrOf(m))
+					res = r
+					return outcome(r, err)
+				})
+				c.record(op, true)
+				n++
+				if res == nil || !strings.HasPrefix(impl, "ok") || res.Type() != variants.DateTime || !res.AsDateTime().Equal(want) {
+					c.fail(Failure{Kind: "oracle", Op: op, Impl: impl, Note: fmt.Sprintf("with time.Local = %v, Date of %v is %v", z, dArgs, want)})
+				}
+			}
+		}
+	}
+	if only == "" {
+		c.Notes = append(c.Notes, fmt.Sprintf("Date construction after the program assigned time.Local (two fixed zones and UTC in turn): %d calls against time.Date(..., time.Local)", n))
+	}
+}
+
 func replayC08(c *Ctx, op string) {
+	if strings.HasPrefix(op, "fnzone ") {
+		dateAfterZoneChange(c, op)
+		return
+	}
 	if f := strings.Fields(op); len(f) == 3 && f[0] == "rndrange" {
 		n, _ := strconv.Atoi(f[2])
 		rndRange(c, f[1], 4*n) // a statistical finding: the replay draws four times as many
